@@ -39,6 +39,8 @@ Definition entry := (string * string * string * N * string)%type.
 Definition exceptions : list entry := [
   ("internal/filtering/filter.go", "refreshFiltersIntl", "os.Remove", 1%N,
    "removes the <id>.txt.old of a list that was just refreshed (left by handleFilteringRemoveURL or by old versions); never the list file itself");
+  ("internal/filtering/filter.go", "filterSetProperties", "os.Remove", 1%N,
+   "the user re-enabled a list or changed its URL and the download, which succeeded, has no rules: the <id>.txt stored for the previous source is deleted on purpose so that its rules do not come back; one unlink after the new (empty) contents are known, content untouched, an absent file is the valid empty list for load");
   ("internal/filtering/http.go", "handleFilteringRemoveURL", "os.Rename", 1%N,
    "the user deletes a list: its file is renamed to <id>.txt.old after the list was found under filtersMu and before it is dropped from the configuration; one atomic rename, content untouched, the path is meant to disappear");
   ("internal/dhcpd/http_unix.go", "handleReset", "os.Remove", 1%N,
